@@ -1071,7 +1071,12 @@ class Interp:
                 self.check_hazard("capture", n, cell, act)
         if free:
             self.stats["closures_created"] += 1
-        env = act.env
+        # declaration order: a free name means the binding that is visible where the literal is WRITTEN.  The
+        # function sees exactly those cells (by reference); a same-named variable that the creating function
+        # declares later is a different variable.
+        env = Env(None, False)
+        for n in free:
+            env.vars[n] = self.lex_lookup(act.env, n)[0]
         if self.mutation == "capture_by_value" and free:
             snap = Env(act.env, False)
             for n in free:
